@@ -34,19 +34,34 @@ func exec(op string, args []string) []string {
 	if err != nil {
 		return []string{"bad-op"}
 	}
+	timeout := time.Duration(ms) * time.Millisecond
+	var run func() []string
 	switch op {
 	case "q":
-		return u.RunQuery(ds, time.Duration(ms)*time.Millisecond, false)
+		run = func() []string { return u.RunQuery(ds, timeout, false) }
 	case "flood":
 		if len(ds) != 1 {
 			return []string{"bad-op"}
 		}
-		return u.RunQuery(ds, time.Duration(ms)*time.Millisecond, true)
+		run = func() []string { return u.RunQuery(ds, timeout, true) }
 	case "dp":
-		return runProbe(ds, time.Duration(ms)*time.Millisecond)
+		run = func() []string { return runProbe(ds, timeout) }
+	default:
+		return []string{"bad-op"}
 	}
-	return []string{"bad-op"}
+	started := time.Now()
+	out := run()
+	if time.Since(started) > timeout+stallMargin {
+		// the call took far longer than its timeout: either the machine stalled (all shards of a run show it at the
+		// same moment; datagrams are then lost or read after the deadline) or the code really overran its deadline.
+		// Once more: a real overrun reproduces and is reported (`late`), a stall does not.
+		out = run()
+	}
+	return out
 }
+
+// stallMargin: a call that outlives its timeout by this much is repeated once (see exec).
+const stallMargin = 500 * time.Millisecond
 
 const tmo = "150"
 
